@@ -4,6 +4,7 @@ import (
 	"go.uber.org/zap/verif/props/c03"
 	"go.uber.org/zap/verif/props/c05"
 	"go.uber.org/zap/verif/props/c13"
+	"go.uber.org/zap/verif/props/c14"
 	"go.uber.org/zap/verif/props/c17"
 	"go.uber.org/zap/verif/props/c20"
 	"go.uber.org/zap/verif/props/encjson"
@@ -16,5 +17,6 @@ func init() {
 	register("C13", "fault_enumeration", c13.Run, c13.Child)
 	register("C20", "exploration", c20.Run, nil)
 	register("C05", "exploration", c05.Run, nil)
+	register("C14", "exploration", c14.Run, nil)
 	register("C02", "exploration", encjson.Run02, nil)
 }
